@@ -19,8 +19,7 @@ def jobs(tier):
     J = []
     for inorder in (1, 0):
         tag = 'io' if inorder else 'ooo'
-        J.append(kjob('sem_1w1s_%s' % tag, SRC, 2, 4, ['INORDER=%d' % inorder, 'NSIG=1'], desc='1 waiter, 1 signaller, %s' % tag, timeout=600, unwind=3, mem_gb=16))
-        J.append(kjob('sem_1w1s_intr_%s' % tag, SRC, 3, 5, ['INORDER=%d' % inorder, 'NSIG=1'], desc='1 waiter, 1 signaller, interrupter, %s' % tag, timeout=900, unwind=3, mem_gb=16))
-        J.append(kjob('sem_2w1s_%s' % tag, SRC, 3, 6, ['INORDER=%d' % inorder, 'NSIG=1', 'TWO_WAITERS'], desc='2 waiters, 1 signaller, %s' % tag, timeout=900, unwind=3, mem_gb=20))
+        J.append(kjob('sem_1w1s_%s' % tag, SRC, 2, 4, ['INORDER=%d' % inorder, 'NSIG=1'], desc='1 waiter, 1 signaller, %s' % tag, timeout=1200, unwind=3, mem_gb=16))
+    # (1 waiter + signaller + interrupter, and 2 waiters + signaller, exist in the harness but ran out of memory at 16-20 GB on Layer B: not registered)
     for j in J: j.cbmc += ['-DVERIF_STUCK_IS_LEGAL']
     return J
